@@ -86,21 +86,37 @@ def generate(r):
         caps[x] = 0
         caps += [0, 0]
         scripts.append([["send", x, 0]])
-        sleeper = [["spawn", 2 + i] for i in range(r.randint(1, 3))]
-        nchildren = len(sleeper)
-        sleeper += [["send", x, 0]]
-        for _ in range(r.randint(0, 1)):
-            sleeper.append(["spawn", 2 + nchildren])
-            nchildren += 1
-        sleeper += [["send", y, 0]]
-        scripts.append(sleeper)
-        for child in range(nchildren):
-            scripts.append([])
-            preset_spawned[str(2 + child)] = 1
-        delay_x, delay_y = r.randint(1, 2), r.randint(1, 3)
-        scripts.append([["recv", ack] for _ in range(delay_x)] + [["recv", x], ["recv", x]])
-        scripts.append([["recv", ack] for _ in range(delay_y)] + [["recv", y]])
-        preset_main = [["send", ack, 0] for _ in range(delay_x + delay_y)]
+        if r.random() < 0.5:
+            # the sleeper launches its children and the receiver itself; the receiver hands over to the main fiber, which is
+            # already waiting, after each value it takes (a direct hand-over that needs no rescan)
+            nchildren = r.randint(1, 2)
+            receiver = 2 + nchildren
+            launches = [["spawn", 2 + i] for i in range(nchildren)] + [["spawn", receiver]]
+            r.shuffle(launches)
+            scripts.append(launches + [["send", x, 0], ["send", y, 0]])
+            for child in range(nchildren):
+                scripts.append([])
+                preset_spawned[str(2 + child)] = 1
+            scripts.append([["recv", x], ["send", ack, 0], ["recv", x], ["send", ack, 0], ["recv", y]])
+            preset_spawned[str(receiver)] = 1
+            preset_main = [["recv", ack], ["recv", ack]]
+            senders_of[ack].append(receiver)
+        else:
+            sleeper = [["spawn", 2 + i] for i in range(r.randint(1, 3))]
+            nchildren = len(sleeper)
+            sleeper += [["send", x, 0]]
+            for _ in range(r.randint(0, 1)):
+                sleeper.append(["spawn", 2 + nchildren])
+                nchildren += 1
+            sleeper += [["send", y, 0]]
+            scripts.append(sleeper)
+            for child in range(nchildren):
+                scripts.append([])
+                preset_spawned[str(2 + child)] = 1
+            delay_x, delay_y = r.randint(1, 2), r.randint(1, 3)
+            scripts.append([["recv", ack] for _ in range(delay_x)] + [["recv", x], ["recv", x]])
+            scripts.append([["recv", ack] for _ in range(delay_y)] + [["recv", y]])
+            preset_main = [["send", ack, 0] for _ in range(delay_x + delay_y)]
         senders_of[x] += [0, 1]
         senders_of[y].append(1)
         nf = len(scripts)
